@@ -89,6 +89,21 @@ def r1_emitters(ctx) -> None:
                                              f"field `{tg.attr}` of a serial model is assigned after construction: the value bypasses validation", n)
 
 
+def dump_sites_rule(ctx, rule: str, prefixes: tuple) -> int:
+    """every model_dump / model_dump_json of the given modules dumps the complete model (no exclusion / alias option)"""
+    n = 0
+    for mn, m in ctx.program.modules.items():
+        if not mn.startswith(prefixes):
+            continue
+        for c in calls_in(m.tree):
+            if isinstance(c.func, ast.Attribute) and (call_name(c) or "").startswith("model_dump"):
+                n += 1
+                bad = [k.arg for k in c.keywords if k.arg in ("exclude", "include", "exclude_none", "exclude_unset", "exclude_defaults", "by_alias")]
+                ctx.check(not bad, rule, f"{mn}:{call_name(c)} at `{u(c.func.value)[:40]}`", m.path, c.lineno,
+                          f"dump with {bad} omits fields (the tag fields of nested types and values are defaults): the encoded constant is no longer a complete value", c)
+    return n
+
+
 def r1_encoders_build(ctx) -> None:
     """an encoder of the data model (`_to_serial`, `_to_serial_root`) returns a freshly validated document: it never assigns into an
     object after construction (a patched model bypasses validation, and a patched *shared* model is written with another node's data)"""
